@@ -129,50 +129,7 @@ macro_rules! terminal {
         }
     }};
 }
-macro_rules! pipeline { ($co:expr, $stack:expr, $term:expr, $takes:expr, $lims:expr, $sh:expr) => {{
-    let (stack, term, takes, lims, sh): (&str, &str, &[usize], &[Option<NonZeroUsize>], &Sh) = ($stack, $term, $takes, $lims, $sh);
-    let take = takes.first().copied().unwrap_or(0); let take2 = takes.get(1).copied().unwrap_or(0);
-    let lim = lims.first().copied().flatten(); let lim2 = lims.get(1).copied().flatten();
-    if term == "rcol" {
-        // collect into Result<Vec<_>, E>: the map closure of the stack is the fallible one
-        match stack {
-            "map" => fut_fn($co.map(rmap_cl::<It>(sh)).collect::<Result<Vec<_>, u64>>(), show_res),
-            "map.lim" => fut_fn($co.map(rmap_cl::<It>(sh)).limit(lim).collect::<Result<Vec<_>, u64>>(), show_res),
-            "lim.map" => fut_fn($co.limit(lim).map(rmap_cl::<It>(sh)).collect::<Result<Vec<_>, u64>>(), show_res),
-            "enum.map" => fut_fn($co.enumerate().map(rmap_cl::<(usize, It)>(sh)).collect::<Result<Vec<_>, u64>>(), show_res),
-            "map.take" => fut_fn($co.map(rmap_cl::<It>(sh)).take(take).collect::<Result<Vec<_>, u64>>(), show_res),
-            "lim.enum.map" => fut_fn($co.limit(lim).enumerate().map(rmap_cl::<(usize, It)>(sh)).collect::<Result<Vec<_>, u64>>(), show_res),
-            s => panic!("rcol stack {s}"),
-        }
-    } else { match stack {
-        "" => terminal!(term, $co, sh),
-        "lim" => terminal!(term, $co.limit(lim), sh),
-        "take" => terminal!(term, $co.take(take), sh),
-        "enum" => terminal!(term, $co.enumerate(), sh),
-        "map" => terminal!(term, $co.map(map_cl::<It>(sh)), sh),
-        "map.lim" => terminal!(term, $co.map(map_cl::<It>(sh)).limit(lim), sh),
-        "lim.map" => terminal!(term, $co.limit(lim).map(map_cl::<It>(sh)), sh),
-        "take.lim" => terminal!(term, $co.take(take).limit(lim), sh),
-        "lim.take" => terminal!(term, $co.limit(lim).take(take), sh),
-        "enum.map" => terminal!(term, $co.enumerate().map(map_cl::<(usize, It)>(sh)), sh),
-        "map.take" => terminal!(term, $co.map(map_cl::<It>(sh)).take(take), sh),
-        "enum.take" => terminal!(term, $co.enumerate().take(take), sh),
-        "take.enum" => terminal!(term, $co.take(take).enumerate(), sh),
-        "lim.enum.map" => terminal!(term, $co.limit(lim).enumerate().map(map_cl::<(usize, It)>(sh)), sh),
-        // enumerate ABOVE a map whose futures complete in any order: the index must still be the position in the source
-        "map.enum" => terminal!(term, $co.map(map_cl::<It>(sh)).enumerate(), sh),
-        "lim.map.enum" => terminal!(term, $co.limit(lim).map(map_cl::<It>(sh)).enumerate(), sh),
-        "map.enum.take" => terminal!(term, $co.map(map_cl::<It>(sh)).enumerate().take(take), sh),
-        "take.map" => terminal!(term, $co.take(take).map(map_cl::<It>(sh)), sh),
-        "enum.lim" => terminal!(term, $co.enumerate().limit(lim), sh),
-        "take.take" => terminal!(term, $co.take(take).take(take2), sh),
-        "take.map.take" => terminal!(term, $co.take(take).map(map_cl::<It>(sh)).take(take2), sh),
-        "take.enum.take" => terminal!(term, $co.take(take).enumerate().take(take2), sh),
-        "lim.lim" => terminal!(term, $co.limit(lim).limit(lim2), sh),
-        "lim.map.lim" => terminal!(term, $co.limit(lim).map(map_cl::<It>(sh)).limit(lim2), sh),
-        s => panic!("stack {s}"),
-    } }
-}} }
+include!("../co_stacks.rs");
 /// the pipeline over a scripted source stream (`src.co()`), or - `cov:` cases - over `Vec::into_co_stream()` holding the same items, which must
 /// behave exactly like a source stream that has every item ready (the driver compares the two runs)
 fn build(vsrc: bool, stack: &str, term: &str, takes: &[usize], lims: &[Option<NonZeroUsize>], sh: &Sh) -> PollFn {
